@@ -486,6 +486,15 @@ func (x *caCtx) picked(fn *ssa.Function, ta *ssa.TypeAssert) (bool, string) {
 // pickedItems returns the stores to weightedrand.Choice.Item in fn if v is Pick() of a chooser whose
 // choices are all built in fn (slice rooted in a fresh slice); nil otherwise.
 func pickedItems(fn *ssa.Function, ta *ssa.TypeAssert) []*ssa.Store {
+	// the Item of one of the locally collected choices taken directly (cs[i].Item): same provenance as a pick
+	if u, ok := ta.X.(*ssa.UnOp); ok {
+		if fa, ok := u.X.(*ssa.FieldAddr); ok {
+			f := engine.FieldOf(fa)
+			if ia, ok := fa.X.(*ssa.IndexAddr); ok && f.Name() == "Item" && f.Pkg() != nil && f.Pkg().Path() == "github.com/mroth/weightedrand" && rootedInFreshSlice(ia.X, map[ssa.Value]bool{}) {
+				return choiceItemStores(fn)
+			}
+		}
+	}
 	call, ok := ta.X.(*ssa.Call)
 	if !ok || !engine.CalleeIs(call.Common(), "github.com/mroth/weightedrand", "Chooser", "Pick") {
 		return nil
@@ -515,6 +524,10 @@ func pickedItems(fn *ssa.Function, ta *ssa.TypeAssert) []*ssa.Store {
 	if nc == nil || !rootedInFreshSlice(nc.Call.Args[0], map[ssa.Value]bool{}) {
 		return nil
 	}
+	return choiceItemStores(fn)
+}
+
+func choiceItemStores(fn *ssa.Function) []*ssa.Store {
 	var items []*ssa.Store
 	for _, b := range fn.Blocks {
 		for _, in := range b.Instrs {
